@@ -368,6 +368,7 @@ type Unit struct {
 	fixLen    map[int]int64
 	anchored  map[int]bool
 	justified map[string]bool // ensures-by clauses this (lemma function) unit has turned into obligations
+	labelled  map[string]*Term // named assertions ("assert after f#k as NAME"), for "from" proofs
 	ghost     map[string]*CV // values named by "bind after" clauses (lemma functions)
 	names     map[string]int
 	unrollAll int // >0: bounded mode — every loop is unrolled this many times and longer runs are cut off
